@@ -15,7 +15,6 @@ from rtflite.dictionary.color_table import (
     name_to_type,
 )
 
-
 # Colors of the document currently being encoded. Context-local so that
 # concurrent encodes (threads, async tasks) do not see each other's palette.
 _document_colors: ContextVar[Sequence[str] | None] = ContextVar(
